@@ -119,6 +119,15 @@ def _run_case(case, ctx):
         conv.numpy_convert(data, out, bpv, bsarg, earlier=earlier)
         src = data
     elif route in ("segy", "cli"):
+        if case.get("prior") is not None:
+            # an earlier conversion in this process of another survey of the same layout (no extended textual
+            # headers) stored under the same file name, read with the same reader: nothing of it may survive
+            pdata = gen.make_values(shape, "gauss", case["prior"])
+            ppath = build_segy(dict(case, ext=0), d, pdata)
+            pout = os.path.join(d, "prior.sgz")
+            conv.segy_convert(ppath, pout, 4, (4, 4, -1), reduce_iops=(case["reader"] == "reduced"))
+            import segyio
+            check_output(pout, np.array(segyio.tools.cube(ppath), dtype=np.float32), 4, (4, 4, 512))
         path = build_segy(case, d, data)
         import segyio
         src = np.array(segyio.tools.cube(path), dtype=np.float32)
@@ -172,7 +181,8 @@ def _run_case(case, ctx):
         check_output(earlier[0][0], src, case["pre"]["rate"], tuple(case["pre"]["blockshape"]))
     return {"sig": signature(case) if nontrivial(case) else None,
             "labels": [route, f"rate={rate}", "multiblock" if any(n > b for n, b in zip(shape, bs)) else "singleblock",
-                       "unaligned" if any(n % 4 for n in shape) else "aligned"] + (["reused-converter"] if earlier else [])}
+                       "unaligned" if any(n % 4 for n in shape) else "aligned"] + (["reused-converter"] if earlier else [])
+                      + (["after-prior-conversion"] if case.get("prior") is not None else [])}
 
 
 @st.composite
@@ -192,7 +202,9 @@ def segy_cases(draw, settings=None):
     il = draw(gen.line_axis(shape[0]))
     xl = draw(gen.line_axis(shape[1]))
     pre = draw(gen.setting_spelled()) if draw(st.integers(0, 4)) == 0 else None
+    prior = draw(st.integers(0, 2 ** 32 - 1)) if draw(st.integers(0, 4)) == 0 else None
     return {"setting": setting, "shape": list(shape), "values": draw(gen.values_spec), **({"pre": pre} if pre else {}),
+            **({"prior": prior} if prior is not None else {}),
             "fmt": draw(st.sampled_from([1, 5])), "ext": draw(st.sampled_from([0, 0, 1, 2])),
             "queue": draw(st.sampled_from([1, 2, 16])), "reader": draw(st.sampled_from(["segyio", "reduced"])),
             "il": list(il), "xl": list(xl), "mode": draw(st.sampled_from(["heuristic", "thorough", "exhaustive", "strip"])),
